@@ -874,6 +874,31 @@ theorem wrapKids_names : ∀ (ks : List NS) (s s' : Stack), wrapKids s ks = .ok 
         rw [b, a, updateTop_names _ _ _ h1]; simp
 end
 
+theorem wrapClassList_names : ∀ (cs : List Str) (s s' : Stack), wrapClassList s cs = .ok s' → s'.names = s.names
+  | [], s, s', h => by simp only [wrapClassList, Res.ok.injEq] at h; subst h; rfl
+  | c :: cs, s, s', h => by
+    simp only [wrapClassList] at h
+    split at h
+    · simp at h
+    · rename_i s1 h1
+      split at h
+      · simp at h
+      · rename_i s2 h2
+        rw [wrapClassList_names cs s2 s' h, pop_names _ _ h2, push_names _ _ _ h1]; simp
+
+/-- **class loop discipline.**  After the loop over any list of classes and structs (Python: a struct takes the
+    NumPy-descriptor branch, a class the extension-type branch) the name stack is what it was before: the blocks
+    of everything wrapped later are looked up under their own names. -/
+theorem wrapClasses_names (cs : List Str) (s s' : Stack) (h : wrapClasses s cs = .ok s') : s'.names = s.names := by
+  simp only [wrapClasses] at h
+  split at h
+  · simp at h
+  · rename_i s1 h1
+    split at h
+    · simp at h
+    · rename_i s2 h2
+      rw [pop_names _ _ h, wrapClassList_names cs s1 s2 h2, push_names _ _ _ h1]; simp
+
 /-- **stack discipline.**  Wrapping a namespace with any tree of nested namespaces leaves the splicer
     name stack as it found it (entered with its own scope name on top): the module-level blocks written
     afterwards (`file_top`, `module_use`, `module_top`) are created under the namespace's own name,
